@@ -412,6 +412,73 @@ theorem keyref_absent_refer_iff (env : Env) (c r s : Nat) (ns : List Nat) (st : 
     obtain ⟨t, ht', rfl⟩ := hv
     exact absurd (h t ht') (by simp)
 
+/-! ### the loop of `collect_key_fields` over the open constraints (elements.py:912-950, 1e49c64) -/
+
+/-- `context.identities` is a dict: in every reachable state `order` lists exactly the constraints
+    that have a counter, each once (whatever the document and the schema) -/
+theorem run_order_inv (env : Env) (evs : List Ev) : OrderInv (run env evs) := by
+  unfold run
+  exact OrderInv.foldl (fun st ev hs => hs.step env ev) evs OrderInv.init
+
+/-- **every open constraint sees the node, each for itself** (`continue` semantics): after the loop
+    over `context.identities`, the counter of every constraint is what the loop body alone makes of
+    it — whichever other constraints select the same node, wherever they stand in the dict, and
+    whether the node is outside their qualified node set — and the errors raised are the bodies'
+    errors in dict order. -/
+theorem collectOpen_spec (env : Env) (n : Nat) (st : St) (h : OrderInv st) :
+    (∀ c, (step env st (.collectOpen n)).ctrs c = (collectRes env n c (st.ctrs c)).1) ∧
+    (step env st (.collectOpen n)).errs =
+      (st.order.filterMap fun c => (collectRes env n c (st.ctrs c)).2).reverse ++ st.errs := by
+  obtain ⟨h1, h2⟩ := collect_fold_spec env n st.order h.nodup st
+  refine ⟨fun c => ?_, h2⟩
+  simp only [step]
+  rw [h1 c]
+  by_cases hc : c ∈ st.order
+  · simp [hc]
+  · have : st.ctrs c = none := by
+      have := (not_congr (h.mem c)).mp hc
+      simpa using this
+    simp [hc, this, collectRes]
+
+/-- the link to the one-constraint blocks (`scope_block_iff`, `keyref_block_iff`): on the counter of
+    `c` the whole loop acts as the loop body for `c` alone -/
+theorem collectOpen_proj (env : Env) (n : Nat) (st : St) (h : OrderInv st) (c : Nat) :
+    (step env st (.collectOpen n)).ctrs c = (step env st (.collect n [c])).ctrs c := by
+  rw [(collectOpen_spec env n st h).1 c]
+  simp [step, collectOne_ctrs]
+
+/-- the loop adds no error exactly when no open constraint's body does -/
+theorem collectOpen_errs_nil_iff (env : Env) (n : Nat) (st : St) (h : OrderInv st) :
+    (step env st (.collectOpen n)).errs = [] ↔
+      st.errs = [] ∧ ∀ c ∈ st.order, (collectRes env n c (st.ctrs c)).2 = none := by
+  rw [(collectOpen_spec env n st h).2]
+  simp only [List.append_eq_nil_iff, List.reverse_eq_nil_iff, List.filterMap_eq_nil_iff]
+  exact and_comm
+
+/-- keyref 0 (field @parent, refer 1) declared BEFORE key 1 (field @id), both on scope 1 and both
+    selecting the rows 2 and 3: `<tree><node id="1"/><node id="1"/></tree>` — no row has @parent -/
+def ptrEnv : Env where
+  kind c := if c == 0 then .keyref else .key
+  refer c := if c == 0 then some 1 else none
+  sel _ s n := s == 1 && (n == 2 || n == 3)
+  fields c _ := if c == 0 then [.absent] else [.val (.num 1 0)]
+
+example : OrderInv (step ptrEnv St.init (.enter 1 [0, 1])) := (OrderInv.init).step _ _
+
+/- Why the `continue` of line 942 must not be a `break`: with `break` (`collectBreak`) a row outside
+   the qualified node set of the keyref is never offered to the key that follows it in the dict, and
+   the duplicate id goes unreported.  (Replayed on the real code by the harness: corpus
+   seed3-*.json.) -/
+theorem collect_break_counterexample :
+    let st0 := step ptrEnv St.init (.enter 1 [0, 1])
+    st0.order = [0, 1] ∧
+    ¬ KeyOk (scopeRows ptrEnv 1 1 [2, 3]) ∧
+    (run ptrEnv [.enter 1 [0, 1], .collectOpen 2, .collectOpen 3, .leave 1 [0, 1]]).errs = [.dup 1 3] ∧
+    (let st2 := collectBreak ptrEnv 2 st0.order st0
+     let st3 := collectBreak ptrEnv 3 st2.order st2
+     (step ptrEnv st3 (.leave 1 [0, 1])).errs = []) := by
+  decide
+
 /-! ### where the per-document machine still deviates: witnesses (replayed on the real code) -/
 
 def v1 : FRes Val := .val (.num 1 0)
